@@ -8,6 +8,13 @@ def main():
     mc = games.mc_game(chk, depth=2 if q else 3, workers=8 if q else 16)
     results, paths = games.walk_traces(chk, events=800 if q else 25000, files=8 if q else 32)
     n1, d1 = games.collect_walk(chk, results, paths)
+    # positions with more phase points than the nominal maximum (promotions with all pieces still on): captures there
+    import os
+    results_s, paths_s = games.walk_traces(chk, events=500 if q else 8000, files=4 if q else 16, max_depth=20, label="surplus",
+                                           roots=os.path.join(vlib.VERIF, "data", "roots_surplus.txt"))
+    n_s, _ = games.collect_walk(chk, results_s, paths_s)
+    n1 += n_s
+    results = results + results_s
     st = [r.stats("trace")[0] for r in results]
     files = games.gen_game(chk, "mixed", behaviours=32 if q else 2000, steps=60, max_depth=12, jvms=4 if q else 16)
     for m, p in games.replay_games(chk, files):
